@@ -946,7 +946,7 @@ def check_marker_balance(ctx, pid):
     from . import gendrive
     gendrive.report(
         ctx, pid, kinds={'marker-discipline', 'marker-without-flag',
-                         'marker-attribution'},
+                         'marker-attribution', 'marker-gap'},
         rule_suffix='marker-discipline',
         rule_text='debug markers emitted by every generator are properly '
                   'nested in emission order, absent with the flag off, and '
